@@ -114,7 +114,7 @@ AVerify(pr) ==        \* pr = pk recipe [k, ops] as in SigNet
   /\ phase = "made"
   /\ LET r == VerifyProof(DenPk(pr), pf.p, Table(pf)) IN
        last' = [act |-> "EGVerify", k |-> pf.k, m |-> pf.m, m2 |-> pf.m2, ops |-> pf.ops, pk |-> pr,
-                expect |-> [res |-> r.t], touched |-> (pf.ops # <<>>), rightpk |-> (DenPk(pr) = PkOf(pf.k))]
+                expect |-> [res |-> r.t], touched |-> (pf.p # Proof(PkOf(pf.k), pf.m, 1)), rightpk |-> (DenPk(pr) = PkOf(pf.k))]
   /\ phase' = "judged" /\ UNCHANGED pf
 
 AVerifyDecrypt(k2) ==
@@ -122,7 +122,7 @@ AVerifyDecrypt(k2) ==
   /\ LET r == VerifyAndDecrypt(SkOf(k2), pf.p, Table(pf)) IN
        last' = [act |-> "EGVerifyDecrypt", k |-> pf.k, m |-> pf.m, m2 |-> pf.m2, ops |-> pf.ops, k2 |-> k2,
                 expect |-> [res |-> r.r.t, eq |-> (IsOk(r.r) /\ r.v = GScale(PConst(pf.m), GenM))],
-                touched |-> (pf.ops # <<>>), rightkey |-> (k2 = pf.k)]
+                touched |-> (pf.p # Proof(PkOf(pf.k), pf.m, 1)), rightkey |-> (k2 = pf.k)]
   /\ phase' = "judged" /\ UNCHANGED pf
 
 \* threshold decryption of a plain ciphertext
